@@ -269,7 +269,7 @@ def aarch64_part(ctx, cov, d):
                 (cd / "defs.s").write_text(defs)
                 o1 = assemble(cd / "main.s", arch="aarch64")
                 o2 = assemble(cd / "defs.s", arch="aarch64")
-                args = (["-pie"] if out == "staticpie" else []) + [str(o1), str(o2), "-o", str(cd / "out")]
+                args = ["-m", "aarch64linux"] + (["-pie"] if out == "staticpie" else []) + [str(o1), str(o2), "-o", str(cd / "out")]
                 r = run_wild(args, timeout=60)
                 if r.rc != 0:
                     continue                       # rejected: not C01's subject
